@@ -71,6 +71,18 @@ func shrinkW2(raw json.RawMessage) []json.RawMessage {
 		c.InN = o.InN - 1
 		out = append(out, mustJSON(c))
 	}
+	if o.StallMs > 0 {
+		c := clone()
+		c.StallMs, c.StallAfter = 0, 0
+		out = append(out, mustJSON(c))
+	}
+	for i, e := range o.Emitters {
+		if e.Dup || e.Kind != 0 {
+			c := clone()
+			c.Emitters[i].Dup, c.Emitters[i].Kind = false, 0
+			out = append(out, mustJSON(c))
+		}
+	}
 	if o.PortSlow > 0 {
 		c := clone()
 		c.PortSlow = 0
@@ -100,6 +112,26 @@ func (i *fakeIn) ReceiveChannel() <-chan []byte { return i.c }
 type w2Emitter struct {
 	N      int   `json:"n"`
 	Delays []int `json:"delays_us"` // delay before each message, cycled
+	// Kind: the status nibble of this emitter's messages (0 = 0x90). Dup: every message is sent twice, byte for
+	// byte (two holders of a pitch released one after the other send two identical Note Offs)
+	Kind byte `json:"kind,omitempty"`
+	Dup  bool `json:"dup,omitempty"`
+}
+
+func (e w2Emitter) status(ei int) byte {
+	k := e.Kind
+	if k == 0 {
+		k = 0x90
+	}
+	return k | byte(ei)
+}
+
+// content of the n-th message of an emitter
+func (e w2Emitter) seq(n int) int {
+	if e.Dup {
+		return n / 2
+	}
+	return n
 }
 
 type w2Consumer struct {
@@ -121,6 +153,9 @@ type w2Ops struct {
 	InDelays  []int        `json:"in_delays_us"`
 	Consumers []w2Consumer `json:"consumers"`
 	PortSlow  int          `json:"port_slow_us"`
+	// the port stops taking messages for StallMs after its StallAfter-th message (a busy ALSA client)
+	StallAfter int `json:"port_stall_after,omitempty"`
+	StallMs    int `json:"port_stall_ms,omitempty"`
 	CapOut    int          `json:"cap_out"`
 	CapIn     int          `json:"cap_in"`
 	Profile   string       `json:"profile"`
@@ -146,7 +181,15 @@ func genW2(r *simrt.Rng, tier string) *w2Ops {
 	}
 	ne := r.Range(1, 4)
 	for i := 0; i < ne; i++ {
-		o.Emitters = append(o.Emitters, w2Emitter{N: r.Range(1, 40), Delays: delays()})
+		e := w2Emitter{N: r.Range(1, 40), Delays: delays()}
+		if r.Chance(0.3) {
+			e.Kind = []byte{0x80, 0xB0, 0xE0, 0x90}[r.Intn(4)]
+			e.Dup = r.Chance(0.7)
+		}
+		o.Emitters = append(o.Emitters, e)
+	}
+	if r.Chance(0.15) {
+		o.StallAfter, o.StallMs = r.Range(1, 30), []int{300, 700, 1500}[r.Intn(3)]
 	}
 	o.InN = r.Range(5, 80)
 	o.InDelays = delays()
@@ -269,7 +312,11 @@ func runW2(t *testing.T, job *Job, seed uint64, rp *Replay) RunOut {
 				}
 				w.mu.Lock()
 				w.port = append(w.port, append([]byte(nil), b...))
+				np := len(w.port)
 				w.mu.Unlock()
+				if ops.StallMs > 0 && np == ops.StallAfter {
+					simrt.Sleep(time.Duration(ops.StallMs) * time.Millisecond)
+				}
 				if ops.PortSlow > 0 {
 					simrt.Sleep(time.Duration(ops.PortSlow) * time.Microsecond)
 				}
@@ -290,7 +337,7 @@ func runW2(t *testing.T, job *Job, seed uint64, rp *Replay) RunOut {
 					if d := e.Delays[n%len(e.Delays)]; d > 0 {
 						simrt.Sleep(time.Duration(d) * time.Microsecond)
 					}
-					m := seqMsg(0x90|byte(ei), n)
+					m := seqMsg(e.status(ei), e.seq(n))
 					key := fmt.Sprintf("%d/%d", ei, n)
 					simrt.Yield("h.emit")
 					w.mu.Lock()
@@ -461,7 +508,8 @@ func runW2(t *testing.T, job *Job, seed uint64, rp *Replay) RunOut {
 		// run until nothing moves any more (bounded), then judge the recorded history
 		deadline := simrt.Now() + 30*time.Second
 		last, stable := -1, 0
-		for simrt.Now() < deadline && stable < 6 {
+		need := 6 + ops.StallMs/50 + 2 // a stalled port is not the end of the run
+		for simrt.Now() < deadline && stable < need {
 			simrt.Sleep(50 * time.Millisecond)
 			pmu.Lock()
 			snap := pending * 1000003
@@ -507,6 +555,14 @@ func runW2(t *testing.T, job *Job, seed uint64, rp *Replay) RunOut {
 		}
 	}
 	ro.Faults["attach_late"] += len(ops.Consumers)
+	if ops.StallMs > 0 {
+		ro.Faults["port_stalls"]++
+	}
+	for _, e := range ops.Emitters {
+		if e.Dup {
+			ro.Faults["identical_consecutive_messages"]++
+		}
+	}
 	if ops.PortSlow > 0 {
 		ro.Faults["slow_port"]++
 	}
@@ -550,15 +606,15 @@ func (w *w2World) check(ops *w2Ops) *Vio {
 			return mk("out_corrupted", fmt.Sprintf("port received % x", b))
 		}
 		e := b[0] & 0x0f
-		if b[0]&0xf0 != 0x90 || int(e) >= len(ops.Emitters) {
+		if int(e) >= len(ops.Emitters) || b[0] != ops.Emitters[e].status(int(e)) {
 			return mk("out_corrupted", fmt.Sprintf("port received % x which no emitter sent", b))
 		}
 		s := msgSeq(b)
-		if s != next[e] {
-			return mk("out_order_or_duplicate", fmt.Sprintf("port message %d is #%d of emitter %d, expected #%d", i, s, e, next[e]))
+		if want := ops.Emitters[e].seq(next[e]); s != want {
+			return mk("out_order_or_duplicate", fmt.Sprintf("port message %d carries #%d of emitter %d, its message %d carries #%d (lost, duplicated or reordered)", i, s, e, next[e], want))
 		}
+		pos[fmt.Sprintf("%d/%d", e, next[e])] = i
 		next[e]++
-		pos[fmt.Sprintf("%d/%d", e, s)] = i
 	}
 	for ei, e := range ops.Emitters {
 		for n := 0; n < e.N; n++ {
